@@ -40,7 +40,7 @@ NA = {
 }
 # properties whose check is planned in DESIGN.md but not built yet
 PENDING = {
- "C37": "not built: select_coins_to_spend takes an Exclude (two HashSets), a yield_each stream adapter that yields to the tokio scheduler and a random max_dust_count; each needs its own cut and the remaining time went to other checks (DESIGN §5 C37)",
+ "C37": "measured out of reach: the real select_coins_to_spend was harnessed (3 coins, max 2, symbolic amounts/target/exclusion mask; is_excluded and max_dust_count cut, a Result-free index iterator to avoid StorageError destructors): symbolic execution took ~20 min and the SAT instance exhausted 24 GB; the non-indexed algorithms additionally need database views (DESIGN §5 C37)",
  "C38": "measured: the real query_pagination inside async_graphql::connection::query (collection <= 3, first <= 2) was still in symbolic execution after 20 min in the design probe (drop glue and error construction in async-graphql/anyhow); retried with -Z restrict-vtable, Backtrace/fmt stubs and per-loop unwind limits on std::backtrace's destructors: the smallest instances (2 entries, page 1; and the four rejected argument combinations alone) were still in symbolic execution after 18 min each - anyhow/async-graphql errors are destroyed through a function-pointer table that CBMC resolves by signature over the whole fuel-core crate graph (DESIGN §5 C38)",
  "C43": "measured out of reach: the conversion functions build an anyhow::Error eagerly at every `ok_or(...)` and drop it on the success path; anyhow dispatches the destructor through its own function-pointer table, which CBMC resolves to every function of that signature in a dependency graph that includes aws-sdk-s3/tonic/prost. The smallest harness (one header, symbolic fields) stayed in symbolic execution for 15-20 min with and without per-loop unwind limits on std::backtrace's destructors; whole blocks additionally need sha256 (Block::new) and storage maps",
 }
